@@ -30,6 +30,32 @@ thread_local! {
     static STYLE: std::cell::RefCell<(String, String)> = std::cell::RefCell::new((String::new(), String::new()));
 }
 
+thread_local! {
+    /// alternate spellings requested (ADEF key `spell`: `alt`): inclusive field ranges in the DSL, long access names
+    static ALT: std::cell::Cell<bool> = std::cell::Cell::new(false);
+}
+fn alt() -> bool {
+    ALT.with(|a| a.get())
+}
+/// `RW` → `ReadWrite` etc. under the alternate spelling (both front ends accept both).
+fn access_text(a: &str) -> String {
+    if !alt() {
+        return a.to_string();
+    }
+    match a {
+        "RW" => "ReadWrite".to_string(),
+        "RO" => "ReadOnly".to_string(),
+        "WO" => "WriteOnly".to_string(),
+        other => other.to_string(),
+    }
+}
+fn m_access(v: &Value) -> M {
+    match v {
+        Value::String(s) => M::Str(access_text(s)),
+        other => generic(other),
+    }
+}
+
 /// The spelling of a non-negative integer in the rendering's number style (ADEF key `num_style`:
 /// `dec` (default), `hex`, `bin`, `mixed`), where the target syntax can spell it that way: the DSL
 /// and TOML have `0x` / `0b` literals, YAML has `0x` (and `0b…` arrives as a string the manifest
@@ -55,6 +81,7 @@ fn styled(dec: String) -> String {
 pub fn render(adef: &Value, syntax: &str) -> Result<String, String> {
     let style = adef.get("num_style").and_then(Value::as_str).unwrap_or("dec").to_string();
     STYLE.with(|s| *s.borrow_mut() = (syntax.to_string(), style));
+    ALT.with(|a| a.set(adef.get("spell").and_then(Value::as_str) == Some("alt")));
     match syntax {
         "dsl" => render_dsl(adef),
         "json" => Ok(emit_json(&manifest_tree(adef, false)?)),
@@ -71,6 +98,14 @@ pub fn render(adef: &Value, syntax: &str) -> Result<String, String> {
 fn is_int_text(s: &str) -> bool {
     let digits = s.strip_prefix(['-', '+']).unwrap_or(s);
     !digits.is_empty() && digits.bytes().all(|b| b.is_ascii_digit())
+}
+
+fn int_text_plain(v: &Value) -> Option<String> {
+    match v {
+        Value::Number(n) => Some(n.to_string()),
+        Value::String(s) if is_int_text(s) => Some(s.strip_prefix('+').unwrap_or(s).to_string()),
+        _ => None,
+    }
 }
 
 /// The literal text of an ADEF integer (JSON number or decimal string).
@@ -162,7 +197,7 @@ pub fn manifest_tree(adef: &Value, no_null: bool) -> Result<M, String> {
         None | Some(Value::Null) => {}
         Some(Value::Object(cfg)) => {
             if !cfg.is_empty() {
-                top.push(("config".to_string(), M::Map(cfg.iter().map(|(k, v)| (k.clone(), generic(v))).collect())));
+                top.push(("config".to_string(), M::Map(cfg.iter().map(|(k, v)| (k.clone(), if k.ends_with("_access") { m_access(v) } else { generic(v) })).collect())));
             }
         }
         Some(other) => return Err(format!("\"config\" must be an object, got {}", brief(other))),
@@ -213,7 +248,7 @@ fn m_field(f: &Value, no_null: bool) -> Result<M, String> {
     let mut out = Vec::new();
     put(&mut out, f, "cfg", "cfg", generic);
     put(&mut out, f, "description", "description", generic);
-    put(&mut out, f, "access", "access", generic);
+    put(&mut out, f, "access", "access", m_access);
     put(&mut out, f, "base", "base", generic);
     put(&mut out, f, "start", "start", m_int);
     put(&mut out, f, "end", "end", m_int);
@@ -291,7 +326,7 @@ fn m_override(ov: &Value, no_null: bool) -> Result<M, String> {
             put(&mut out, ov, "repeat", "repeat", m_repeat);
         }
         "register" => {
-            put(&mut out, ov, "access", "access", generic);
+            put(&mut out, ov, "access", "access", m_access);
             put(&mut out, ov, "address", "address", m_int);
             put(&mut out, ov, "reset", "reset_value", m_reset);
             put(&mut out, ov, "repeat", "repeat", m_repeat);
@@ -335,7 +370,7 @@ fn m_object(o: &Value, no_null: bool, depth: usize) -> Result<M, String> {
             }
         }
         "register" => {
-            put(&mut out, o, "access", "access", generic);
+            put(&mut out, o, "access", "access", m_access);
             put(&mut out, o, "byte_order", "byte_order", generic);
             put(&mut out, o, "bit_order", "bit_order", generic);
             put(&mut out, o, "address", "address", m_int);
@@ -365,7 +400,7 @@ fn m_object(o: &Value, no_null: bool, depth: usize) -> Result<M, String> {
             }
         }
         "buffer" => {
-            put(&mut out, o, "access", "access", generic);
+            put(&mut out, o, "access", "access", m_access);
             put(&mut out, o, "address", "address", m_int);
         }
         "ref" => {
@@ -660,7 +695,7 @@ fn dsl_field(f: &Value, ind: usize) -> Result<String, String> {
     out.push(':');
     if let Some(a) = f.get("access") {
         out.push(' ');
-        out.push_str(&raw(a));
+        out.push_str(&access_text(&raw(a)));
     }
     if let Some(b) = f.get("base") {
         out.push(' ');
@@ -699,7 +734,14 @@ fn dsl_field(f: &Value, ind: usize) -> Result<String, String> {
     }
     out.push_str(" = ");
     match (f.get("start"), f.get("end")) {
-        (Some(s), Some(e)) => out.push_str(&format!("{}..{}", dsl_int(s), dsl_int(e))),
+        (Some(s), Some(e)) => {
+            // `a..=b` is the same range as `a..b+1`; only spelled that way when `end - 1` is a valid literal
+            let incl = if alt() { int_text_plain(e).and_then(|t| t.parse::<i128>().ok()).filter(|v| *v >= 1) } else { None };
+            match incl {
+                Some(v) => out.push_str(&format!("{}..={}", dsl_int(s), styled((v - 1).to_string()))),
+                None => out.push_str(&format!("{}..{}", dsl_int(s), dsl_int(e))),
+            }
+        }
         (Some(s), None) => out.push_str(&dsl_int(s)),
         (None, Some(e)) => out.push_str(&format!("..{}", dsl_int(e))),
         (None, None) => {}
@@ -799,7 +841,7 @@ fn dsl_override(target: &str, ov: &Value, ind: usize) -> Result<String, String> 
         }
         "register" => {
             if let Some(v) = ov.get("access") {
-                items.push(format!("type Access = {};", raw(v)));
+                items.push(format!("type Access = {};", access_text(&raw(v))));
             }
             if let Some(v) = ov.get("address") {
                 items.push(format!("const ADDRESS = {};", dsl_int(v)));
@@ -884,7 +926,7 @@ fn dsl_object(o: &Value, ind: usize, depth: usize) -> Result<String, String> {
         }
         "register" => {
             if let Some(v) = o.get("access") {
-                items.push(format!("type Access = {};", raw(v)));
+                items.push(format!("type Access = {};", access_text(&raw(v))));
             }
             if let Some(v) = o.get("byte_order") {
                 items.push(format!("type ByteOrder = {};", raw(v)));
@@ -958,7 +1000,7 @@ fn dsl_object(o: &Value, ind: usize, depth: usize) -> Result<String, String> {
         "buffer" => {
             out.push_str(&format!("buffer {name}"));
             if let Some(a) = o.get("access") {
-                out.push_str(&format!(": {}", raw(a)));
+                out.push_str(&format!(": {}", access_text(&raw(a))));
             }
             if let Some(a) = o.get("address") {
                 out.push_str(&format!(" = {}", dsl_int(a)));
@@ -1021,6 +1063,7 @@ pub fn render_dsl(adef: &Value) -> Result<String, String> {
                         ("name_word_boundaries", Value::Array(a)) => {
                             format!("[{}]", a.iter().map(raw).collect::<Vec<_>>().join(", "))
                         }
+                        (key, other) if key.ends_with("_access") => access_text(&raw(other)),
                         (_, other) => raw(other),
                     };
                     out.push_str(&format!("    type {} = {};\n", dsl_config_key(k), value));
